@@ -71,7 +71,10 @@ def pda_events(P, n, src, budget, limit=40, words=None):
     from gambatools.global_settings import GambaTools
     absP = ab.pda(P)
     default = GambaTools.pda_epsilon_closure_max_iterations
-    GambaTools.pda_epsilon_closure_max_iterations = limit
+    if limit is None:
+        limit = 1000          # the library's documented default: the setting is left alone for this call
+    else:
+        GambaTools.pda_epsilon_closure_max_iterations = limit
     try:
         for w in (words if words is not None else U.words_upto(sorted(P.Sigma), n if len(P.Sigma) < 2 else 2)):
             if budget["t"] <= 0:
@@ -130,6 +133,10 @@ def drive(task):
                 yield from pda_events(pdasrc.build(src), task["n"], src, budget)
             for src, words in pdasrc.DEEP:
                 yield from pda_events(pdasrc.build(src), 0, src, budget, limit=60, words=words)
+            # under the DEFAULT setting (1000 iterations): branching closures of 127 and 255 configurations
+            for d in (6, 7):
+                src = {"kind": "pda_tree", "depth": d, "default_limit": 1}
+                yield from pda_events(pdasrc.build(src), 0, src, budget, limit=None, words=["a"])
     elif k == "rnd_pda":
         for i in range(task["count"]):
             src = {"kind": "pda_rnd", "seed": task["seed"] * 100000 + i}
@@ -159,8 +166,9 @@ def redrive(src):
     elif k in ("exh_dfa", "rnd_dfa"):
         evs = fa_events(gen.build_dfa(src), "dfa", 3, src, budget)
     elif k.startswith("pda"):
-        evs = pda_events(pdasrc.build(src), 3, src, budget, limit=60 if w and len(w) > 3 else 40,
-                         words=[w] if w and len(w) > 3 else None)
+        evs = pda_events(pdasrc.build(src), 3, src, budget,
+                         limit=None if src.get("default_limit") else 60 if w and len(w) > 3 else 40,
+                         words=[w] if w and (len(w) > 3 or src.get("default_limit")) else None)
     else:
         yield from cfg_events(src, src.pop("n", 4))
         return
